@@ -409,7 +409,9 @@ func (c *capture) Close() error { return nil }
 
 var exporter = &capture{}
 
-func runHAR(reqBody, respBody string, exclusions []string) (string, string, error) {
+// runHAR: the last of `transactions` identical transactions through ONE processor instance is returned.
+func runHAR(reqBody, respBody string, exclusions []string, transactions int) (string, string, error) {
+	exclusions = append([]string{}, exclusions...)
 	params := map[string]streamtypes.ProcessorParam{
 		"exporter_id":                {Name: "exporter_id", Value: publictypes.NewParamValue("verif")},
 		"transaction_max_size_bytes": {Name: "transaction_max_size_bytes", Value: publictypes.NewParamValue(1 << 30)},
@@ -423,9 +425,11 @@ func runHAR(reqBody, respBody string, exclusions []string) (string, string, erro
 	stream := testutils.NewMockAPIStreamFull(publictypes.StreamTypeResponse, "POST", "https://a.com/x",
 		map[string]string{"content-type": "application/json"}, map[string]string{"content-type": "application/json"},
 		reqBody, respBody, 200)
-	exporter.last = exporter.last[:0]
-	if _, err := proc.Execute("flow", stream); err != nil {
-		return "", "", fmt.Errorf("Execute: %w", err)
+	for t := 0; t < transactions; t++ {
+		exporter.last = exporter.last[:0]
+		if _, err := proc.Execute("flow", stream); err != nil {
+			return "", "", fmt.Errorf("Execute: %w", err)
+		}
 	}
 	i := bytes.IndexByte(exporter.last, ' ')
 	if len(exporter.last) == 0 || i < 0 {
@@ -493,9 +497,31 @@ func runCase(v *sim.Verdict, rp replay) {
 		case "har":
 			reqR := render(rp.Excl, "$.request.body")
 			respR := render(rp.ExclResp, "$.response.body")
-			all := append(append([]string{}, reqR...), respR...)
-			all = append(all, `$.request.headers["x-keep"]`)
-			rq, rs, err := runHAR(rp.Doc, rp.Doc, all)
+			// the order in which the exclusions are listed and the number of transactions the one processor has
+			// already exported are the user's and the traffic's business: both vary with the case
+			hdr := []string{`$.request.headers["x-keep"]`}
+			var all []string
+			switch len(rp.Doc) % 4 {
+			case 0:
+				all = append(append(append(all, reqR...), respR...), hdr...)
+			case 1:
+				all = append(append(append(all, respR...), reqR...), hdr...)
+			case 2:
+				all = append(append(append(all, hdr...), respR...), reqR...)
+			default:
+				for i := 0; i < len(reqR) || i < len(respR); i++ {
+					if i < len(respR) {
+						all = append(all, respR[i])
+					}
+					if i < len(reqR) {
+						all = append(all, reqR[i])
+					}
+				}
+				all = append(all, hdr...)
+			}
+			transactions := 1 + (len(rp.Doc)/4)%3
+			v.Count(fmt.Sprintf("har_exports_judged_as_transaction_%d_of_one_processor", transactions), 1)
+			rq, rs, err := runHAR(rp.Doc, rp.Doc, all, transactions)
 			if err != nil {
 				v.Violate("C16/har/no-export", err.Error(), rp)
 				return
